@@ -46,17 +46,29 @@ def memberLocalNames : Members → List String
   | .fieldFix _ _ _ _ _ rest => memberLocalNames rest
   | .fieldDyn _ _ _ _ _ rest => memberLocalNames rest
 
+/-- Sequencing of two checks: the first error wins. -/
+@[inline] def seq (x y : Except AErr Unit) : Except AErr Unit :=
+  match x with
+  | .error e => .error e
+  | .ok () => y
+
+infixr:60 " >>> " => seq
+
+/-- Reject the first repeated name, else continue. -/
+@[inline] def dupCheck (names : List String) (mk : String → AErr) (x : Except AErr Unit) :
+    Except AErr Unit :=
+  match firstDup names [] with
+  | some n => .error (mk n)
+  | none => x
+
 /-- `analyze_function`: duplicate parameters, then defaults and body in the
     environment extended by all parameters. -/
 @[inline] def funcCheck (names : List String) (env : AEnv)
     (dflts : AEnv → Except AErr Unit) (body : AEnv → Except AErr Unit) : Except AErr Unit :=
-  match firstDup names [] with
-  | some n => .error (.repeatedParamName n)
-  | none =>
-    let inner := env.add names
-    match dflts inner with
-    | .error e => .error e
-    | .ok () => body inner
+  dupCheck names .repeatedParamName (dflts (env.add names) >>> body (env.add names))
+
+def objEnv (env : AEnv) (names : List String) : AEnv :=
+  ({ env with isObj := true } : AEnv).add names
 
 mutual
   def analyze : Expr → AEnv → Except AErr Unit
@@ -69,75 +81,32 @@ mutual
       match analyzeSpecs spec env with
       | .error e => .error e
       | .ok env' =>
-        match firstDup (bindNames locals) [] with
-        | some n => .error (.repeatedLocalName n)
-        | none =>
-          let inner := ({ env' with isObj := true } : AEnv).add (bindNames locals)
-          match analyzeBinds locals inner with
-          | .error e => .error e
-          | .ok () =>
-            match analyze name env' with
-            | .error e => .error e
-            | .ok () => analyze body inner
+        dupCheck (bindNames locals) .repeatedLocalName
+          (analyzeBinds locals (objEnv env' (bindNames locals)) >>>
+           analyze name env' >>>
+           analyze body (objEnv env' (bindNames locals)))
     | .array items, env => analyzeExprs items env
     | .arrayComp body spec, env =>
       match analyzeSpecs spec env with
       | .error e => .error e
       | .ok env' => analyze body env'
     | .field e _, env => analyze e env
-    | .index e i, env =>
-      match analyze e env with
-      | .error er => .error er
-      | .ok () => analyze i env
+    | .index e i, env => analyze e env >>> analyze i env
     | .slice e a b c, env =>
-      match analyze e env with
-      | .error er => .error er
-      | .ok () =>
-        match analyzeOpt a env with
-        | .error er => .error er
-        | .ok () =>
-          match analyzeOpt b env with
-          | .error er => .error er
-          | .ok () => analyzeOpt c env
+      analyze e env >>> analyzeOpt a env >>> analyzeOpt b env >>> analyzeOpt c env
     | .superField _, env => if env.isObj then .ok () else .error .superOutsideObject
     | .superIndex i, env => if env.isObj then analyze i env else .error .superOutsideObject
-    | .call callee args _, env =>
-      match analyze callee env with
-      | .error er => .error er
-      | .ok () => analyzeArgs args false env
+    | .call callee args _, env => analyze callee env >>> analyzeArgs args false env
     | .var n, env => if env.has n then .ok () else .error (.unknownVariable n)
     | .local_ bs body, env =>
-      match firstDup (bindNames bs) [] with
-      | some n => .error (.repeatedLocalName n)
-      | none =>
-        let inner := env.add (bindNames bs)
-        match analyzeBinds bs inner with
-        | .error e => .error e
-        | .ok () => analyze body inner
-    | .if_ c t e, env =>
-      match analyze c env with
-      | .error er => .error er
-      | .ok () =>
-        match analyze t env with
-        | .error er => .error er
-        | .ok () => analyzeOpt e env
-    | .binary _ a b, env =>
-      match analyze a env with
-      | .error er => .error er
-      | .ok () => analyze b env
+      dupCheck (bindNames bs) .repeatedLocalName
+        (analyzeBinds bs (env.add (bindNames bs)) >>> analyze body (env.add (bindNames bs)))
+    | .if_ c t e, env => analyze c env >>> analyze t env >>> analyzeOpt e env
+    | .binary _ a b, env => analyze a env >>> analyze b env
     | .unary _ a, env => analyze a env
-    | .objExt e ms, env =>
-      match analyze e env with
-      | .error er => .error er
-      | .ok () => analyzeObj ms env
+    | .objExt e ms, env => analyze e env >>> analyzeObj ms env
     | .func ps body, env => funcCheck (paramNames ps) env (analyzeDefaults ps) (analyze body)
-    | .assert_ c m inner, env =>
-      match analyze c env with
-      | .error er => .error er
-      | .ok () =>
-        match analyzeOpt m env with
-        | .error er => .error er
-        | .ok () => analyze inner env
+    | .assert_ c m inner, env => analyze c env >>> analyzeOpt m env >>> analyze inner env
     | .error_ e, env => analyze e env
     | .inSuper e, env => if env.isObj then analyze e env else .error .superOutsideObject
     | .importLit _, _ => .ok ()
@@ -150,79 +119,51 @@ mutual
     | .some e, env => analyze e env
   def analyzeExprs : Exprs → AEnv → Except AErr Unit
     | .nil, _ => .ok ()
-    | .cons e rest, env =>
-      match analyze e env with
-      | .error er => .error er
-      | .ok () => analyzeExprs rest env
+    | .cons e rest, env => analyze e env >>> analyzeExprs rest env
   /-- `seenNamed`: a named argument occurred earlier in the list. -/
   def analyzeArgs : Args → Bool → AEnv → Except AErr Unit
     | .nil, _, _ => .ok ()
     | .pos e rest, seenNamed, env =>
       if seenNamed then .error .positionalArgAfterNamed
-      else
-        match analyze e env with
-        | .error er => .error er
-        | .ok () => analyzeArgs rest seenNamed env
-    | .named _ e rest, _, env =>
-      match analyze e env with
-      | .error er => .error er
-      | .ok () => analyzeArgs rest true env
+      else analyze e env >>> analyzeArgs rest seenNamed env
+    | .named _ e rest, _, env => analyze e env >>> analyzeArgs rest true env
   /-- values of `local` bindings, in the environment that already has all of them -/
   def analyzeBinds : Binds → AEnv → Except AErr Unit
     | .nil, _ => .ok ()
-    | .cons _ ps e rest, env =>
-      match (match ps with
-             | .none => analyze e env
-             | .some ps => funcCheck (paramNames ps) env (analyzeDefaults ps) (analyze e)) with
-      | .error er => .error er
-      | .ok () => analyzeBinds rest env
+    | .cons _ .none e rest, env => analyze e env >>> analyzeBinds rest env
+    | .cons _ (.some ps) e rest, env =>
+      funcCheck (paramNames ps) env (analyzeDefaults ps) (analyze e) >>> analyzeBinds rest env
   def analyzeDefaults : Params → AEnv → Except AErr Unit
     | .nil, _ => .ok ()
-    | .cons _ d rest, env =>
-      match analyzeOpt d env with
-      | .error er => .error er
-      | .ok () => analyzeDefaults rest env
+    | .cons _ d rest, env => analyzeOpt d env >>> analyzeDefaults rest env
   def analyzeObj : Members → AEnv → Except AErr Unit
     | ms, env =>
-      match firstDup (memberLocalNames ms) [] with
-      | some n => .error (.repeatedLocalName n)
-      | none =>
-        let inner := ({ env with isObj := true } : AEnv).add (memberLocalNames ms)
-        analyzeMembers ms env inner []
+      dupCheck (memberLocalNames ms) .repeatedLocalName
+        (analyzeMembers ms env (objEnv env (memberLocalNames ms)) [])
   /-- `outer`: environment of the object expression (for computed field names);
       `inner`: object environment; `fixed`: fixed field names seen so far. -/
   def analyzeMembers : Members → AEnv → AEnv → List String → Except AErr Unit
     | .nil, _, _, _ => .ok ()
-    | .local_ _ ps e rest, outer, inner, fixed =>
-      match (match ps with
-             | .none => analyze e inner
-             | .some ps => funcCheck (paramNames ps) inner (analyzeDefaults ps) (analyze e)) with
-      | .error er => .error er
-      | .ok () => analyzeMembers rest outer inner fixed
+    | .local_ _ .none e rest, outer, inner, fixed =>
+      analyze e inner >>> analyzeMembers rest outer inner fixed
+    | .local_ _ (.some ps) e rest, outer, inner, fixed =>
+      funcCheck (paramNames ps) inner (analyzeDefaults ps) (analyze e) >>>
+      analyzeMembers rest outer inner fixed
     | .assert_ c m rest, outer, inner, fixed =>
-      match analyze c inner with
-      | .error er => .error er
-      | .ok () =>
-        match analyzeOpt m inner with
-        | .error er => .error er
-        | .ok () => analyzeMembers rest outer inner fixed
-    | .fieldFix n _ _ ps e rest, outer, inner, fixed =>
-      match (match ps with
-             | .none => analyze e inner
-             | .some ps => funcCheck (paramNames ps) inner (analyzeDefaults ps) (analyze e)) with
-      | .error er => .error er
-      | .ok () =>
-        if fixed.contains n then .error (.repeatedFieldName n)
-        else analyzeMembers rest outer inner (n :: fixed)
-    | .fieldDyn nameE _ _ ps e rest, outer, inner, fixed =>
-      match (match ps with
-             | .none => analyze e inner
-             | .some ps => funcCheck (paramNames ps) inner (analyzeDefaults ps) (analyze e)) with
-      | .error er => .error er
-      | .ok () =>
-        match analyze nameE outer with
-        | .error er => .error er
-        | .ok () => analyzeMembers rest outer inner fixed
+      analyze c inner >>> analyzeOpt m inner >>> analyzeMembers rest outer inner fixed
+    | .fieldFix n _ _ .none e rest, outer, inner, fixed =>
+      analyze e inner >>>
+      (if fixed.contains n then .error (.repeatedFieldName n)
+       else analyzeMembers rest outer inner (n :: fixed))
+    | .fieldFix n _ _ (.some ps) e rest, outer, inner, fixed =>
+      funcCheck (paramNames ps) inner (analyzeDefaults ps) (analyze e) >>>
+      (if fixed.contains n then .error (.repeatedFieldName n)
+       else analyzeMembers rest outer inner (n :: fixed))
+    | .fieldDyn nameE _ _ .none e rest, outer, inner, fixed =>
+      analyze e inner >>> analyze nameE outer >>> analyzeMembers rest outer inner fixed
+    | .fieldDyn nameE _ _ (.some ps) e rest, outer, inner, fixed =>
+      funcCheck (paramNames ps) inner (analyzeDefaults ps) (analyze e) >>>
+      analyze nameE outer >>> analyzeMembers rest outer inner fixed
   /-- comprehension clauses, left to right; returns the extended environment -/
   def analyzeSpecs : Specs → AEnv → Except AErr AEnv
     | .nil, env => .ok env
